@@ -28,7 +28,7 @@ import lib
 
 PROP = 'C05'
 THEOREMS = [
-    'C05_tracks', 'C05_no_backend_error', 'C05_no_orphans', 'C05_no_missing', 'C05_safe_run_is_run',
+    'C05_tracks', 'C05_layout_spec', 'C05_tracks_layout', 'C05_no_backend_error', 'C05_no_orphans', 'C05_no_missing', 'C05_safe_run_is_run',
     'C05_history_tracks', 'C05_empty_ok', 'C05_rename_free', 'C05_ptrref_agrees',
 ]
 REFUTED = ['C05_full_refuted']
@@ -805,14 +805,14 @@ def gen_cases(tier):
     ex = exhaustive_small()
     if tier == 'quick':
         # a seeded sample of the exhaustive family + all of it in the thorough tier
-        idx = sorted(rnd.sample(range(len(ex)), min(len(ex), 80)))
+        idx = sorted(rnd.sample(range(len(ex)), min(len(ex), 60)))
         model_cases += [ex[i] for i in idx]
-        plan = [('model', 70, (8, 22)), ('lprops', 55, (8, 20)), ('bases', 55, (8, 20)), ('wild', 45, (6, 18))]
-        nrich = 50
+        plan = [('model', 45, (8, 18)), ('lprops', 40, (8, 18)), ('bases', 40, (8, 18)), ('wild', 30, (6, 16))]
+        nrich = 35
     else:
         model_cases += ex
-        plan = [('model', 1500, (8, 30)), ('lprops', 1100, (8, 26)), ('bases', 1100, (8, 26)), ('wild', 900, (6, 22))]
-        nrich = 900
+        plan = [('model', 450, (8, 28)), ('lprops', 350, (8, 24)), ('bases', 350, (8, 24)), ('wild', 220, (6, 20))]
+        nrich = 280
     profs = ['corpus/exhaustive'] * len(model_cases)
     for name, cnt, (lo, hi) in plan:
         for _ in range(cnt):
@@ -933,7 +933,8 @@ def classify_failure(mon_entry, lost, orphans, clinks=frozenset()):
         if m:
             n = int(m.group(1))
             for (d, p) in clinks:
-                if d == n and f'`p{p}`: {{' in text:
+                # the query on T<n> reads the link tables of every subtype of T<n> as well
+                if (n, p) in clinks and f'`p{p}`: {{' in text:
                     if kind.endswith('table') and mon_entry[1] == f'P:T{d}.p{p}':
                         return 'C05-F3'
                     if kind.endswith('column') and re.fullmatch(r'q\d+', str(mon_entry[1])):
